@@ -8,7 +8,7 @@ From JSL Require Import Base Instance Dstate Filters World Observers Feasible Li
 From Coq Require Import Lia.
 
 Definition plain_kind (k : okind) : bool :=
-  match k with KHist | KUnsched | KMakespan | KIdle => true | KRec _ => false end.
+  match k with KHist | KUnsched | KMakespan | KIdle => true | KRec _ | KFeat => false end.
 
 Lemma all_sops_init I : all_sops (sched (init_d I)) = [].
 Proof. unfold all_sops, init_d. cbn [sched]. apply concat_repeat_nil. Qed.
@@ -23,7 +23,7 @@ Theorem observer_reset_is_fresh I fs (o : obs) :
   plain_kind (kind_of o) = true ->
   o_reset I fs (init_d I) o = o_construct I (init_d I) (kind_of o).
 Proof.
-  destruct o as [h|dq|rw cur|rw|s log]; cbn [kind_of plain_kind o_reset o_construct]; intros H;
+  destruct o as [h|dq|rw cur|rw|s log|]; cbn [kind_of plain_kind o_reset o_construct]; intros H;
     try discriminate; try reflexivity.
   rewrite all_sops_init. reflexivity.
 Qed.
